@@ -480,21 +480,58 @@ class FnEmitter:
         # nondeterministic in Verus (two casts of the same integer are not provably equal); the
         # wrapper (spec/compare.rs) says the cast is a function of the integer (spec i2f).  An operand
         # that is not an i64 makes the generated file ill-typed (tool limit), never a pass.
+        def primary_start(e):
+            """index of the first token of the postfix/primary expression ending at token e, or None"""
+            cur = e
+            while True:
+                if toks[cur].kind == 'p' and toks[cur].text in (')', ']'):
+                    opener = '(' if toks[cur].text == ')' else '['
+                    depth = 0
+                    j = cur
+                    while j > bopen:
+                        if toks[j].kind == 'p' and toks[j].text in (')', ']'):
+                            depth += 1
+                        elif toks[j].kind == 'p' and toks[j].text in ('(', '['):
+                            depth -= 1
+                            if depth == 0:
+                                break
+                        j -= 1
+                    if depth != 0 or toks[j].text != opener:
+                        return None
+                    cur = j
+                    pj = prev_sig(toks, cur)
+                    if toks[pj].kind == 'id' and toks[pj].text not in ('if', 'while', 'match', 'return', 'in', 'as', 'let', 'else'):
+                        cur = pj        # call or index: f(..) / v[..]
+                    elif toks[cur].text == '[':
+                        return None
+                    else:
+                        pass            # parenthesised group
+                elif toks[cur].kind in ('id', 'num'):
+                    pass
+                else:
+                    return None
+                pj = prev_sig(toks, cur)
+                if toks[pj].kind == 'p' and toks[pj].text in ('.', '::'):
+                    cur = prev_sig(toks, pj)
+                    continue
+                return cur
+
         k = bopen
         while k < bclose:
             t = toks[k]
             if t.kind == 'id' and t.text == 'as':
                 nx = next_sig(toks, k)
                 pv = prev_sig(toks, k)
-                if toks[nx].kind == 'id' and toks[nx].text == 'f64' and toks[pv].kind == 'id':
-                    start = toks[pv].start
-                    pp = prev_sig(toks, pv)
-                    if toks[pp].kind == 'p' and toks[pp].text == '*':
-                        ppp = prev_sig(toks, pp)
-                        unary = not (toks[ppp].kind in ('id', 'num') or (toks[ppp].kind == 'p' and toks[ppp].text in (')', ']')))
-                        if unary:
-                            start = toks[pp].start
-                    if not (toks[pp].kind == 'p' and toks[pp].text == '.'):
+                if toks[nx].kind == 'id' and toks[nx].text == 'f64':
+                    st = primary_start(pv)
+                    if st is not None:
+                        start = toks[st].start
+                        pp = prev_sig(toks, st)
+                        if toks[pp].kind == 'p' and toks[pp].text in ('*', '-'):
+                            ppp = prev_sig(toks, pp)
+                            unary = not (toks[ppp].kind in ('id', 'num') or (toks[ppp].kind == 'p' and toks[ppp].text in (')', ']')))
+                            if unary:
+                                start = toks[pp].start
                         edits.append((start, start, 'i64_to_f64(', None))
                         edits.append((toks[pv].end, toks[nx].end, ')', None))
                         self.counts['R12'] = self.counts.get('R12', 0) + 1
